@@ -30,12 +30,15 @@ import (
 const T0 = int64(1_700_000_040_000_000_000) // a multiple of one minute
 
 type sigSenders struct {
-	*node.Senders
-	ch chan string
+	inner *node.Senders
+	ch    chan string
 }
 
+func (s *sigSenders) HostTarget() string            { return s.inner.HostTarget() }
+func (s *sigSenders) Senders() []application.Sender { return s.inner.Senders() }
+
 func (s *sigSenders) Incentive(t string) {
-	s.Senders.Incentive(t)
+	s.inner.Incentive(t)
 	select {
 	case s.ch <- "incentive:" + t:
 	default:
@@ -43,7 +46,7 @@ func (s *sigSenders) Incentive(t string) {
 }
 
 func (s *sigSenders) AddTargets(t []string) {
-	s.Senders.AddTargets(t)
+	s.inner.AddTargets(t)
 	b, _ := json.Marshal(t)
 	select {
 	case s.ch <- "targets:" + string(b):
